@@ -1,4 +1,5 @@
-// driver for the Odeint back-end: argv[1] = number of observer calls, argv[2] = mxsteps, argv[3] = dt, argv[4] = y0
+// driver for the Odeint back-end: argv[1] = number of observer calls, argv[2] = mxsteps, argv[3] = dt, argv[4] = y0,
+// argv[5] (optional) = the budget given to Init, argv[2] then being set afterwards through Reset
 #include <cstdio>
 #include <cstdlib>
 #include "naunet.h"
@@ -9,7 +10,10 @@ int main(int argc, char **argv) {
     double dt = argc > 3 ? atof(argv[3]) : 1.0, y0 = argc > 4 ? atof(argv[4]) : 0.0;
     remove("naunet_error_record.txt");
     Naunet n;
-    if (n.Init(1, 1e-20, 1e-5, mx) != NAUNET_SUCCESS) { printf("init-failed\n"); return 2; }
+    if (argc > 5) {
+        if (n.Init(1, 1e-20, 1e-5, atoi(argv[5])) != NAUNET_SUCCESS) { printf("init-failed\n"); return 2; }
+        if (n.Reset(1, 1e-20, 1e-5, mx) != NAUNET_SUCCESS) { printf("reset-failed\n"); return 2; }
+    } else if (n.Init(1, 1e-20, 1e-5, mx) != NAUNET_SUCCESS) { printf("init-failed\n"); return 2; }
     double ab[NEQUATIONS];
     for (int i = 0; i < NEQUATIONS; i++) ab[i] = y0;
     NaunetData data;
